@@ -951,6 +951,8 @@ class CallOps:
             return dict(concrete=None, count="(len %s)" % q, item=lambda j: self.unbox("(at %s %s)" % (q, j), ety), sv=v, seq=q)
         if v.kind == 'str' and v.is_const:
             return dict(concrete=[self.const(c) for c in v.const], count=None, item=None)
+        if v.kind == 'str' and v.ty and set(v.ty) <= {'estr'}:
+            return dict(concrete=[], count=None, item=None)          # the empty string (typed estr) has no characters
         if v.kind == 'none':
             self.st.oblige(FALSE, 'TypeError: None is not iterable', getattr(node, 'lineno', 0))
             raise PathInfeasible()
